@@ -48,7 +48,8 @@ class Node:
 
     @property
     def line(self):
-        return getattr(self.stmt, 'lineno', None)
+        ln = getattr(self.stmt, 'orig_lineno', None) or getattr(self.stmt, 'lineno', None)
+        return int(ln) if ln is not None else None
 
     def calls(self):
         """Call nodes evaluated by this CFG node itself (the header only, for compound statements)."""
